@@ -59,9 +59,23 @@ if confirmed:
             rc = int(rest.split("rc=")[1].split()[0])
             results[cid] = dict(rc=rc, violation=("VIOLATION" in rest), no_failing_input=("no-failing-input-found" in rest))
 first = None
+stale = []
 if os.path.exists(f"{out}/meta.json"):
     old = json.load(open(f"{out}/meta.json"))
     first = old.get("first_evaluation")      # recorded for the waves of session 3 only; never invented afterwards
+    if confirmed and len(checks) < 20:
+        # a run restricted to some checks (the final run evaluates the TARGETED check of every stored change): what the other
+        # checks said is kept from the last run that asked them, and marked as such
+        for cid, v in (old.get("checks") or {}).items():
+            if cid not in results:
+                results[cid] = dict(v, from_an_earlier_run=True)
+                stale.append(cid)
+
+
+def _git(d):
+    return sh(f"git -C {d} rev-parse --short HEAD").stdout.strip()
+
+
 meta = dict(property=pid, name=name, confirmed=confirmed, first_evaluation=first,
             tests_with_change=t, tests_without_change=t0,
             demo_with_change=dict(rc=d1.returncode, tail=(d1.stdout + d1.stderr)[-400:]),
@@ -71,7 +85,8 @@ meta = dict(property=pid, name=name, confirmed=confirmed, first_evaluation=first
                  ("/verif/bin/eval_tree <worktree> <tmpdir>   (all quick checks with BASICTDF_REPO=<worktree>, /repo untouched)" if use_tree else
                   "/verif/bin/try_patch patch.diff   (git -C /repo apply; bin/check <all ids> --tier quick; git -C /repo checkout -- .)")],
             needs=open(f"{out}/notes.md").read()[:1500] if os.path.exists(f"{out}/notes.md") else "",
-            checks=results,
+            checks=dict(sorted(results.items())),
+            last_run=dict(checks_asked=sorted(c for c in results if c not in stale), verif_commit=_git(HERE), basictdf_commit=_git(wt), kept_from_an_earlier_run=sorted(stale)),
             caught_by=[c for c, v in results.items() if v["violation"]],
             caught_with_failing_input=[c for c, v in results.items() if v["violation"] and not v["no_failing_input"]])
 json.dump(meta, open(f"{out}/meta.json", "w"), indent=1)
